@@ -51,14 +51,16 @@ impl<'a> RecordView<'a> {
 
     pub fn null_bitmap(&self) -> &'a [u8] {
         let bitmap_size = Schema::null_bitmap_size(self.schema.column_count());
-        &self.data[2..2 + bitmap_size]
+        self.data.get(2..2 + bitmap_size).unwrap_or(&[])
     }
 
     pub fn offset_table(&self) -> &'a [u8] {
         let bitmap_size = Schema::null_bitmap_size(self.schema.column_count());
         let offset_table_start = 2 + bitmap_size;
         let offset_table_bytes = self.schema.var_column_count() * 2;
-        &self.data[offset_table_start..offset_table_start + offset_table_bytes]
+        self.data
+            .get(offset_table_start..offset_table_start + offset_table_bytes)
+            .unwrap_or(&[])
     }
 
     pub fn data_offset(&self) -> usize {
@@ -69,7 +71,10 @@ impl<'a> RecordView<'a> {
         let byte_idx = col_idx / 8;
         let bit_idx = col_idx % 8;
         let bitmap = self.null_bitmap();
-        (bitmap[byte_idx] & (1 << bit_idx)) != 0
+        // a record that is too short to hold the bit has no value for the column
+        bitmap
+            .get(byte_idx)
+            .is_none_or(|b| (b & (1 << bit_idx)) != 0)
     }
 
     pub fn get_fixed_col_offset(&self, col_idx: usize) -> usize {
@@ -84,30 +89,42 @@ impl<'a> RecordView<'a> {
 
         let offset_table = self.offset_table();
         let var_data_start = self.data_offset() + self.schema.total_fixed_size();
-
-        let end_offset =
-            u16::from_le_bytes([offset_table[var_idx * 2], offset_table[var_idx * 2 + 1]]) as usize;
-
-        let start_offset = if var_idx == 0 {
-            0
-        } else {
-            u16::from_le_bytes([
-                offset_table[(var_idx - 1) * 2],
-                offset_table[(var_idx - 1) * 2 + 1],
-            ]) as usize
+        let entry = |i: usize| -> Result<usize> {
+            let b = offset_table
+                .get(i * 2..i * 2 + 2)
+                .ok_or_else(|| eyre::eyre!("record too short for the offset of column {}", col_idx))?;
+            Ok(u16::from_le_bytes([b[0], b[1]]) as usize)
         };
 
-        Ok((var_data_start + start_offset, var_data_start + end_offset))
+        let end_offset = entry(var_idx)?;
+        let start_offset = if var_idx == 0 { 0 } else { entry(var_idx - 1)? };
+        let (start, end) = (var_data_start + start_offset, var_data_start + end_offset);
+        eyre::ensure!(
+            start <= end && end <= self.data.len(),
+            "corrupt record: column {} spans {}..{} of {} bytes",
+            col_idx,
+            start,
+            end,
+            self.data.len()
+        );
+
+        Ok((start, end))
     }
 
     pub fn get_bool(&self, col_idx: usize) -> Result<bool> {
         let offset = self.get_fixed_col_offset(col_idx);
-        Ok(self.data[offset] != 0)
+        self.data
+            .get(offset)
+            .map(|b| *b != 0)
+            .ok_or_else(|| eyre::eyre!("insufficient data for bool at col {}", col_idx))
     }
 
     pub fn get_int2(&self, col_idx: usize) -> Result<i16> {
         let offset = self.get_fixed_col_offset(col_idx);
-        let bytes: [u8; 2] = self.data[offset..offset + 2]
+        let bytes: [u8; 2] = self
+            .data
+            .get(offset..offset + 2)
+            .ok_or_else(|| eyre::eyre!("insufficient data for int2 at col {}", col_idx))?
             .try_into()
             .map_err(|_| eyre::eyre!("insufficient data for int2 at col {}", col_idx))?;
         Ok(i16::from_le_bytes(bytes))
@@ -115,7 +132,10 @@ impl<'a> RecordView<'a> {
 
     pub fn get_int4(&self, col_idx: usize) -> Result<i32> {
         let offset = self.get_fixed_col_offset(col_idx);
-        let bytes: [u8; 4] = self.data[offset..offset + 4]
+        let bytes: [u8; 4] = self
+            .data
+            .get(offset..offset + 4)
+            .ok_or_else(|| eyre::eyre!("insufficient data for int4 at col {}", col_idx))?
             .try_into()
             .map_err(|_| eyre::eyre!("insufficient data for int4 at col {}", col_idx))?;
         Ok(i32::from_le_bytes(bytes))
@@ -123,7 +143,10 @@ impl<'a> RecordView<'a> {
 
     pub fn get_int8(&self, col_idx: usize) -> Result<i64> {
         let offset = self.get_fixed_col_offset(col_idx);
-        let bytes: [u8; 8] = self.data[offset..offset + 8]
+        let bytes: [u8; 8] = self
+            .data
+            .get(offset..offset + 8)
+            .ok_or_else(|| eyre::eyre!("insufficient data for int8 at col {}", col_idx))?
             .try_into()
             .map_err(|_| eyre::eyre!("insufficient data for int8 at col {}", col_idx))?;
         Ok(i64::from_le_bytes(bytes))
@@ -131,7 +154,10 @@ impl<'a> RecordView<'a> {
 
     pub fn get_float4(&self, col_idx: usize) -> Result<f32> {
         let offset = self.get_fixed_col_offset(col_idx);
-        let bytes: [u8; 4] = self.data[offset..offset + 4]
+        let bytes: [u8; 4] = self
+            .data
+            .get(offset..offset + 4)
+            .ok_or_else(|| eyre::eyre!("insufficient data for float4 at col {}", col_idx))?
             .try_into()
             .map_err(|_| eyre::eyre!("insufficient data for float4 at col {}", col_idx))?;
         Ok(f32::from_le_bytes(bytes))
@@ -139,7 +165,10 @@ impl<'a> RecordView<'a> {
 
     pub fn get_float8(&self, col_idx: usize) -> Result<f64> {
         let offset = self.get_fixed_col_offset(col_idx);
-        let bytes: [u8; 8] = self.data[offset..offset + 8]
+        let bytes: [u8; 8] = self
+            .data
+            .get(offset..offset + 8)
+            .ok_or_else(|| eyre::eyre!("insufficient data for float8 at col {}", col_idx))?
             .try_into()
             .map_err(|_| eyre::eyre!("insufficient data for float8 at col {}", col_idx))?;
         Ok(f64::from_le_bytes(bytes))
@@ -147,7 +176,10 @@ impl<'a> RecordView<'a> {
 
     pub fn get_date(&self, col_idx: usize) -> Result<i32> {
         let offset = self.get_fixed_col_offset(col_idx);
-        let bytes: [u8; 4] = self.data[offset..offset + 4]
+        let bytes: [u8; 4] = self
+            .data
+            .get(offset..offset + 4)
+            .ok_or_else(|| eyre::eyre!("insufficient data for date at col {}", col_idx))?
             .try_into()
             .map_err(|_| eyre::eyre!("insufficient data for date at col {}", col_idx))?;
         Ok(i32::from_le_bytes(bytes))
@@ -155,7 +187,10 @@ impl<'a> RecordView<'a> {
 
     pub fn get_time(&self, col_idx: usize) -> Result<i64> {
         let offset = self.get_fixed_col_offset(col_idx);
-        let bytes: [u8; 8] = self.data[offset..offset + 8]
+        let bytes: [u8; 8] = self
+            .data
+            .get(offset..offset + 8)
+            .ok_or_else(|| eyre::eyre!("insufficient data for time at col {}", col_idx))?
             .try_into()
             .map_err(|_| eyre::eyre!("insufficient data for time at col {}", col_idx))?;
         Ok(i64::from_le_bytes(bytes))
@@ -163,7 +198,10 @@ impl<'a> RecordView<'a> {
 
     pub fn get_timestamp(&self, col_idx: usize) -> Result<i64> {
         let offset = self.get_fixed_col_offset(col_idx);
-        let bytes: [u8; 8] = self.data[offset..offset + 8]
+        let bytes: [u8; 8] = self
+            .data
+            .get(offset..offset + 8)
+            .ok_or_else(|| eyre::eyre!("insufficient data for timestamp at col {}", col_idx))?
             .try_into()
             .map_err(|_| eyre::eyre!("insufficient data for timestamp at col {}", col_idx))?;
         Ok(i64::from_le_bytes(bytes))
@@ -171,14 +209,20 @@ impl<'a> RecordView<'a> {
 
     pub fn get_uuid(&self, col_idx: usize) -> Result<&'a [u8; 16]> {
         let offset = self.get_fixed_col_offset(col_idx);
-        self.data[offset..offset + 16]
+        self
+            .data
+            .get(offset..offset + 16)
+            .ok_or_else(|| eyre::eyre!("insufficient data for uuid at col {}", col_idx))?
             .try_into()
             .map_err(|_| eyre::eyre!("insufficient data for uuid at col {}", col_idx))
     }
 
     pub fn get_macaddr(&self, col_idx: usize) -> Result<&'a [u8; 6]> {
         let offset = self.get_fixed_col_offset(col_idx);
-        self.data[offset..offset + 6]
+        self
+            .data
+            .get(offset..offset + 6)
+            .ok_or_else(|| eyre::eyre!("insufficient data for macaddr at col {}", col_idx))?
             .try_into()
             .map_err(|_| eyre::eyre!("insufficient data for macaddr at col {}", col_idx))
     }
@@ -466,7 +510,10 @@ impl<'a> RecordView<'a> {
 
     pub fn get_inet4(&self, col_idx: usize) -> Result<&'a [u8; 4]> {
         let offset = self.get_fixed_col_offset(col_idx);
-        self.data[offset..offset + 4]
+        self
+            .data
+            .get(offset..offset + 4)
+            .ok_or_else(|| eyre::eyre!("insufficient data for inet4 at col {}", col_idx))?
             .try_into()
             .map_err(|_| eyre::eyre!("insufficient data for inet4 at col {}", col_idx))
     }
@@ -480,7 +527,10 @@ impl<'a> RecordView<'a> {
 
     pub fn get_inet6(&self, col_idx: usize) -> Result<&'a [u8; 16]> {
         let offset = self.get_fixed_col_offset(col_idx);
-        self.data[offset..offset + 16]
+        self
+            .data
+            .get(offset..offset + 16)
+            .ok_or_else(|| eyre::eyre!("insufficient data for inet6 at col {}", col_idx))?
             .try_into()
             .map_err(|_| eyre::eyre!("insufficient data for inet6 at col {}", col_idx))
     }
